@@ -532,7 +532,10 @@ def frame_obligations(ex: Executor, ctx: Ctx, st: State, con: Contract, params):
         st.locals = saved_locals
     for f, arr in st.heap.items():
         a0 = st.heap0.get(f)
-        if a0 is None or arr.eq(a0) or f in wild:
+        if a0 is None:
+            # never seen at entry: the entry content is the pristine array (same name as State.field creates)
+            a0 = z3.Const(f'H0!{f}', arr.sort())
+        if arr.eq(a0) or f in wild:
             continue
         r = z3.Int(VV.fresh_name('fr'))
         excl = [r != x for x in allowed_fields.get(f, [])]
